@@ -12,6 +12,7 @@ package harness
 import (
 	"encoding/json"
 	"fmt"
+	"math"
 	"sync"
 	"testing"
 	"time"
@@ -31,7 +32,10 @@ type c02Case struct {
 	Callers   []c02Caller `json:"callers"`
 	Perm      []int       `json:"perm"`   // release order over the gated callers' indexes
 	Strict    bool        `json:"strict"` // wait for each released caller to return before releasing the next
-	Rules     []*HookRule `json:"rules,omitempty"`
+	// Poison: before the load, every client function is called once with arguments that cannot be marshalled (NaN):
+	// those calls fail locally, and must leave nothing behind that affects the calls proper
+	Poison bool        `json:"poison,omitempty"`
+	Rules  []*HookRule `json:"rules,omitempty"`
 }
 
 func runC02(c c02Case) (*Violation, string) {
@@ -51,6 +55,19 @@ func runC02(c c02Case) (*Violation, string) {
 	}
 	hooks.Reset(c.Rules...)
 	defer hooks.Off()
+	if c.Poison {
+		for _, kind := range []string{"call", "retry", "noctx", "notify", "call"} {
+			p := rig.Go(cl, kind, rig.Tok("poison"), Plan{Bad: math.NaN()})
+			select {
+			case <-p.Done:
+			case <-time.After(3 * time.Second):
+				return violf("call-hangs", "a %s whose arguments cannot be marshalled did not return", kind), ""
+			}
+			if p.Err == nil {
+				return violf("unmarshalable-arguments-accepted", "a %s with a NaN argument returned without an error", kind), ""
+			}
+		}
+	}
 
 	calls := make([]*Pending, len(c.Callers))
 	var start sync.WaitGroup
@@ -135,7 +152,7 @@ func runC02(c c02Case) (*Violation, string) {
 }
 
 func genC02(t *rapid.T) c02Case {
-	c := c02Case{Transport: "ws", Strict: rapid.Bool().Draw(t, "strict")}
+	c := c02Case{Transport: "ws", Strict: rapid.Bool().Draw(t, "strict"), Poison: rapid.IntRange(0, 3).Draw(t, "poison") == 0}
 	if rapid.IntRange(0, 7).Draw(t, "http") == 0 {
 		c.Transport = "http"
 	}
@@ -185,6 +202,9 @@ func c02NT(c c02Case) (bool, []string) {
 	if c.Strict {
 		cl = append(cl, "strict")
 	}
+	if c.Poison {
+		cl = append(cl, "after_locally_failed_calls")
+	}
 	if len(c.Rules) > 0 {
 		cl = append(cl, "with_delays")
 	}
@@ -220,13 +240,13 @@ func permutations(n int) [][]int {
 	return out
 }
 
-const c02Rule = "N in 1..12 concurrent callers (barrier start) on one ws client (1/8 of cases: http client); completion order forced by per-token handler gates, strict or burst; response sizes 0..40000 bytes (multi-frame above 4096); ungated callers mixed in; 0-4 delays of 50us-3ms at yield points (request accepted, in-flight registered, response found/delivered, inside write lock, frame read, call dispatch). Grid: every completion permutation for N<=4 (quick) / N<=5 (thorough), each with every yield point delayed in turn (thorough). Non-trivial = N>=2 and (completion order differs from issue order or ungated callers race); distinct by descriptor hash"
+const c02Rule = "N in 1..12 concurrent callers (barrier start) on one ws client (1/8 of cases: http client); completion order forced by per-token handler gates, strict or burst; response sizes 0..40000 bytes (multi-frame above 4096); ungated callers mixed in; 0-4 delays of 50us-3ms at yield points (request accepted, in-flight registered, response found/delivered, inside write lock, frame read, call dispatch). Grid: every completion permutation for N<=4 (quick) / N<=5 (thorough), each with every yield point delayed in turn (thorough). optionally every client function is first called once with arguments that cannot be marshalled (NaN; those calls must fail locally and leave nothing behind). Non-trivial = N>=2 and (completion order differs from issue order or ungated callers race); distinct by descriptor hash"
 
 func TestC02(t *testing.T) {
 	rec := NewRec("C02", c02Rule)
 	defer rec.Finish(t)
 	rec.EnableJournal()
-	rec.RequireClass("several_client_functions", "reordered", "strict", "with_delays", "multi_frame_response", "has_ungated", "tr_http")
+	rec.RequireClass("after_locally_failed_calls", "several_client_functions", "reordered", "strict", "with_delays", "multi_frame_response", "has_ungated", "tr_http")
 	sh, nsh := shard()
 
 	run := func(ft failer, c c02Case) {
@@ -258,7 +278,7 @@ func TestC02(t *testing.T) {
 				for i := range callers {
 					callers[i] = c02Caller{Gate: true, Size: []int{0, 5000, 100}[i%3], Kind: []string{"call", "noctx", "retry", "notify"}[(i+k)%4], Junk: (i % 2) * 3000}
 				}
-				run(t, c02Case{Transport: "ws", Callers: callers, Perm: perm, Strict: k%2 == 0})
+				run(t, c02Case{Transport: "ws", Callers: callers, Perm: perm, Strict: k%2 == 0, Poison: k%3 == 0})
 				if thorough() {
 					for _, pt := range []string{"req.accepted", "inflight.registered", "resp.found", "resp.delivered", "write.locked", "frame.read"} {
 						run(t, c02Case{Transport: "ws", Callers: callers, Perm: perm, Strict: k%2 == 1, Rules: []*HookRule{{Point: pt, Occ: 0, DelayU: 300}}})
